@@ -11910,8 +11910,10 @@ func (p *PathAttributeOrigin) DecodeFromBytes(data []byte, options ...*Marshalli
 		return err
 	}
 	if p.Length != 1 {
+		// RFC 4271 Section 6.3: a length that conflicts with the expected
+		// one is an Attribute Length Error
 		eCode := uint8(BGP_ERROR_UPDATE_MESSAGE_ERROR)
-		eSubCode := uint8(BGP_ERROR_SUB_MALFORMED_ATTRIBUTE_LIST)
+		eSubCode := uint8(BGP_ERROR_SUB_ATTRIBUTE_LENGTH_ERROR)
 		return NewMessageError(eCode, eSubCode, nil, "Origin attribute length is incorrect")
 	}
 	p.Value = value[0]
